@@ -222,7 +222,7 @@ pub fn run(ctx: &mut Ctx) {
         ctx.exhaustive_parts.push("king, knight and both pawn attack sets on all 64 squares; alignment predicates on all 4,096 pairs; strictly-between sets on all aligned pairs and a == b".into());
     }
     // random 64-bit occupancies: uniform, sparse, dense
-    let n = ctx.budget(400_000, 40_000_000);
+    let n = ctx.budget(8_000_000, 100_000_000);
     ctx.begin_case("slider:random-occupancies");
     for i in 0..n {
         let s = ctx.rng.below(64) as u8;
